@@ -483,20 +483,28 @@ def run_session(ctx, si, rng):
                          'it is read: %s | after the whole file has been '
                          'read: %s' % (op['names'], str(streamed)[:300],
                                        str(alone)[:300]))
-            for pre in ('export', 'tigerxml'):
+            import zlib
+            observers = ('terminals', 'numbering', 'analysis', 'extract',
+                         'transitions', 'navigation', 'labels')
+            for pre in ('export', 'tigerxml', observers[zlib.crc32(
+                    repr(sorted(op.items(), key=str)).encode('utf-8'))
+                    % len(observers)]):
                 written = norm(c18_ops.execute(
                     R, dict(copy.deepcopy(op), b=None, prewrite=pre), tmp,
                     set()))
                 ctx.hook('pipeline with the trees written once before')
                 if str(written).split('|other|')[0] != \
                         str(alone).split('|other|')[0]:
-                    ctx.fail('C18:writing-a-tree-changes-later-results:'
-                             + '+'.join(op['names']), case,
-                             'every tree written in %s format before the '
+                    mech = 'C18:writing-a-tree-changes-later-results:' \
+                        if pre in ('export', 'tigerxml', 'terminals') else \
+                        'C18:looking-at-a-tree-changes-later-results:%s:' % pre
+                    ctx.fail(mech + '+'.join(op['names']), case,
+                             'every tree written / looked at (%s) before the '
                              'transformations (%s): %s | without: %s'
                              % (pre, op['names'], str(written)[:300],
                                 str(alone)[:300]))
                     break
+                ctx.stratum('pipeline: trees looked at before (%s)' % pre)
             if op['b'].get('fmt') and out[:1] != ['EXCEPTION']:
                 solo = norm(c18_ops.execute(
                     R, {'k': 'pipeline', 'a': op['b'], 'names': [],
